@@ -234,6 +234,11 @@ class Interp:
                 m.soc_solve(solver, **kw)
             else:
                 m.solve(solver, **kw)
+        except Exception as e:
+            if 'size-limited license' in str(e):
+                # the sandbox's Gurobi licence caps model size: inconclusive for this interface, never a violation
+                return {'healthy': True, 'sol': 'inconclusive', 'status': 'gurobi_licence_size'}
+            raise
         finally:
             self._disarm()
         healthy = all(h for _, h in self.w.calls[ncalls:])
